@@ -63,13 +63,14 @@ type Contract struct {
 	File       string
 	Line       int
 	IsPred     bool
+	IsGlobal   bool
 	PredParams []string
 	PredBody   *Clause
 }
 
 var clauseKW = map[string]bool{"requires": true, "ensures": true, "modifies": true, "nopanic": true, "maypanic": true,
 	"panics_when": true, "trusted": true, "pure": true, "noalloc": true, "mayalloc": true, "terminates": true, "decreases": true, "alloc": true,
-	"loop": true, "at": true, "func": true, "extern": true, "pkg": true, "uses": true, "abstract": true, "unreachable": true, "lemma": true, "lemma_ret": true, "pred": true}
+	"loop": true, "at": true, "func": true, "extern": true, "pkg": true, "uses": true, "abstract": true, "unreachable": true, "lemma": true, "lemma_ret": true, "pred": true, "global": true}
 
 var reImp = regexp.MustCompile(`<==>|==>`)
 
@@ -235,6 +236,7 @@ func ParseContractFile(path, defaultPkg string) ([]*Contract, error) {
 	var out []*Contract
 	var cur *Contract
 	pkg := defaultPkg
+	gn := 0
 	type pending struct {
 		kw   string
 		rest string
@@ -287,6 +289,14 @@ func ParseContractFile(path, defaultPkg string) ([]*Contract, error) {
 		switch word {
 		case "pkg":
 			pkg = rest
+		case "global":
+			// global EXPR : invariant over package-level variables that are assigned only by
+			// the package initialiser (checked syntactically); assumed at every function entry
+			gn++
+			gc := &Contract{Pkg: pkg, Name: fmt.Sprintf("global %d", gn), Loops: map[int]*LoopSpec{}, Uses: map[string]bool{}, File: path, Line: ln, IsPred: true, IsGlobal: true}
+			cur = gc
+			out = append(out, cur)
+			pend = &pending{kw: "predbody", rest: rest, line: ln}
 		case "pred":
 			// pred NAME(p1, p2) = EXPR   (macro, expanded at use)
 			eq := strings.Index(rest, "=")
